@@ -690,12 +690,16 @@ if __name__ == "__main__":
     if cmd == "search":
         w, n = run(sys.argv[2], float(sys.argv[3]) if len(sys.argv) > 3 else 60)
         print(json.dumps({"witness": w, "evaluated": n}, default=str))
+        sys.stdout.flush()
+        os._exit(0)          # a change under test may leave worker threads that never end: do not wait for them
     else:
         w = json.loads(sys.argv[2])
         w2, n = run(w["pid"], 300)
         print("stored witness: %s" % json.dumps(w))
         if w2 is None:
             print("property %s holds on the witness' scripted schedules on the current tree (%d cases)" % (w["pid"], n))
-            sys.exit(0)
+            sys.stdout.flush()
+            os._exit(0)
         print("expected: property %s holds; observed on the current tree: %s" % (w["pid"], json.dumps(w2, default=str)))
-        sys.exit(1)
+        sys.stdout.flush()
+        os._exit(1)
